@@ -146,6 +146,10 @@ def h_registry(sx):
                  detail={"history": hist, "outcome": outcome, "acceptable": sorted(acceptable)})
         if outcome == "added":
             model[st].append((di, fi))
+        # lookups happen between registrations, too (steps of an earlier feature run before a library is loaded lazily):
+        # looking a step up never changes what is registered
+        for st_ in ("given", "when", "then"):
+            reg.find_match(Step("x.feature", 1, st_.title(), st_, u"zzz no such step"))
         sx.check(len(reg.steps[st]) == len(model[st]) and (outcome != "ignored" or "ignored" in acceptable), "C11.identical-re-registration-ignored",
                  detail={"history": hist, "registered": len(reg.steps[st]), "expected": len(model[st]), "outcome": outcome, "acceptable": sorted(acceptable)})
     # -- all lookups
